@@ -347,11 +347,11 @@ def build_node(n, env, is_async=False):
         touch = n.get("touch")
         for b in n.get("in_hist", []):
             if touch:
-                _touch_node(gn)
+                _touch_node(gn, env)
             gn = gn.with_inputs(dict(b))
         for b in n.get("out_hist", []):
             if touch:
-                _touch_node(gn)
+                _touch_node(gn, env)
             gn = gn.with_outputs(dict(b))
         if n.get("map_over"):
             gn = gn.map_over(*n["map_over"], mode=n.get("map_mode", "zip"), error_handling="continue" if n.get("map_continue") else "raise")
@@ -434,17 +434,28 @@ def _canon_decision(v):
     return v
 
 
-def _touch_node(gn):
-    """Use a node object between derivations the way a program would (fills its cached properties)."""
-    from hypergraph import Graph
+def _touch_node(gn, env=None):
+    """Use a node object between derivations the way a program would: read its properties, put it into a graph and
+    EXECUTE that graph once (fills every per-object cache, including the ones only an execution touches)."""
+    from hypergraph import Graph, SyncRunner
 
     for c in gn.inputs:
         gn.has_default_for(c)
         gn.get_input_type(c)
     try:
-        Graph([gn]).inputs
+        G = Graph([gn])
+        spec = G.inputs
+        vals = {x: 0 for x in spec.required}
+        for ps in spec.entrypoints.values():
+            for x in ps:
+                vals[x] = 0
+        with warnings.catch_warnings():
+            warnings.simplefilter("ignore")
+            SyncRunner().run(G, vals, error_handling="continue", max_iterations=8)
     except Exception:  # noqa: BLE001
         pass
+    if env is not None and "_log" in env:
+        env["_log"].clear()
 
 
 class RealRun:
